@@ -2501,7 +2501,7 @@ func main() {
 	}
 	wg.Wait()
 	if *flevel != "" {
-		os.Exit(frender(fresults, *leanDir, *txt))
+		os.Exit(frender(fresults, *leanDir, *txt, *gowrap))
 	}
 	for _, k := range keys {
 		results = append(results, resByKey[k]...)
@@ -2616,7 +2616,12 @@ func main() {
 		}
 	}
 	if *gowrap != "" {
-		os.RemoveAll(*gowrap)
+		filepath.Walk(*gowrap, func(p string, fi os.FileInfo, err error) error {
+			if err == nil && !fi.IsDir() && strings.HasPrefix(filepath.Base(p), "verif_t0_") {
+				os.Remove(p) // the field-level wrappers (verif_fl_*, written by -flevel) live in the same tree
+			}
+			return nil
+		})
 		for _, g := range gnames {
 			rs := groups[g]
 			if g == "FieldAsm" {
